@@ -86,7 +86,20 @@ class G:
         self.fam, self.p, self.shape = fam, p, tuple(shape)
 
     def key(self):
-        return [self.fam, {k: (v if not isinstance(v, np.ndarray) else v.tolist()) for k, v in self.p.items()}]
+        def j(v):
+            if isinstance(v, np.ndarray):
+                return [[str(complex(x)) for x in r] for r in v]
+            if isinstance(v, G):
+                return v.key()
+            return v
+        return [self.fam, {k: j(v) for k, v in self.p.items()}]
+
+    def ctrl_expanded(self):
+        import itertools
+        kind, vals = self.p['cv']
+        if kind == 'pos':
+            return [list(t) for t in itertools.product(*[sorted(set(int(x) for x in v)) for v in vals])]
+        return [[int(x) for x in t] for t in vals]
 
     # ---- Cirq object ----
     def cirq_gate(self, cirq, mods=None):
@@ -147,6 +160,16 @@ class G:
             return mods['cirq_ionq'].MSGate(phi0=p['phi0'], phi1=p['phi1'], theta=p['theta'])
         if f == 'IonqZZ':
             return mods['cirq_ionq'].ZZGate(theta=p['theta'])
+        if f == 'Ctrl':
+            kind, vals = p['cv']
+            if kind == 'pos':
+                cv = [v[0] if (len(v) == 1 and not p.get('as_sets')) else tuple(v) for v in vals]
+                if p.get('bools'):
+                    cv = [bool(v) if isinstance(v, int) else v for v in cv]
+            else:
+                cv = cirq.SumOfProducts([tuple(t) for t in vals])
+            return cirq.ControlledGate(p['sub'].cirq_gate(cirq, mods), num_controls=len(p['cdims']), control_values=cv,
+                                       control_qid_shape=tuple(p['cdims']))
         raise KeyError(f)
 
     # ---- Gallina term (float instance) ----
@@ -210,6 +233,9 @@ class G:
                     f'{uu(math.pi * p["theta"])})')
         if f == 'IonqZZ':
             return f'(GIonqZZ {uu(math.pi * p["theta"])})'
+        if f == 'Ctrl':
+            cvals = '[' + '; '.join(nlist(t) for t in self.ctrl_expanded()) + ']'
+            return f'(GCtrl {nlist(p["cdims"])} {cvals} {p["sub"].coq()})'
         raise KeyError(f)
 
 
@@ -223,12 +249,13 @@ def random_unitary(rng, n):
 
 CORE_FAMILIES = ['XPow', 'YPow', 'ZPow', 'HPow', 'CZPow', 'CXPow', 'CYPow', 'SwapPow', 'ISwapPow', 'XXPow', 'YYPow', 'ZZPow',
                  'CCZPow', 'CCXPow', 'CCYPow', 'PI', 'Rx', 'Ry', 'Rz', 'MS', 'FSim', 'PhasedFSim', 'PhasedX', 'PhasedXZ',
-                 'PhasedISwap', 'Givens', 'CSwap', 'GlobalPhase', 'Diagonal', 'QFT', 'PhaseGrad', 'Matrix', 'Identity', 'Perm']
+                 'PhasedISwap', 'Givens', 'CSwap', 'GlobalPhase', 'Diagonal', 'QFT', 'PhaseGrad', 'Matrix', 'Identity', 'Perm',
+                 'Ctrl', 'Ctrl']
 QUDIT_FAMILIES = ['X4Pow', 'Z4Pow']
 VENDOR_FAMILIES = ['Sycamore', 'GPI', 'GPI2', 'IonqMS', 'IonqZZ']
 
 
-def draw(rng, fam):
+def draw(rng, fam, depth=0):
     """A parameter record for the family, weighted towards the special values that select fast paths."""
     if fam in EIG or fam in ('X4Pow', 'Z4Pow'):
         shape = EIG_SHAPE.get(fam, (2, 2)) if fam in EIG else (4,)
@@ -282,6 +309,32 @@ def draw(rng, fam):
                            theta=rng.choice([0.25, 0.25, 0.1, 0.0, 0.125])), (2, 2))
     if fam == 'IonqZZ':
         return G(fam, dict(theta=rng.choice([0.25, 0.1, 0.0, -0.125, round(rng.uniform(-1, 1), 3)])), (2, 2))
+    if fam == 'Ctrl':
+        subfam = rng.choice(['XPow', 'YPow', 'ZPow', 'HPow', 'CZPow', 'CXPow', 'SwapPow', 'ISwapPow', 'PhasedX', 'Matrix', 'FSim',
+                             'GlobalPhase', 'Rx', 'Rz', 'ZZPow', 'Z4Pow', 'Ctrl'] if depth < 2 else ['XPow', 'ZPow', 'HPow'])
+        sub = draw(rng, subfam, depth + 1) if subfam == 'Ctrl' else draw(rng, subfam)
+        while len(sub.shape) > 2:
+            sub = draw(rng, 'XPow')
+        nc = rng.choice([1, 1, 2]) if len(sub.shape) <= 1 else 1
+        cdims = [rng.choice([2, 2, 2, 3]) for _ in range(nc)]
+        r = rng.random()
+        if r < 0.25 and nc >= 2:
+            import itertools
+            allv = list(itertools.product(*[range(d) for d in cdims]))
+            vals = rng.sample(allv, rng.randint(1, min(3, len(allv))))
+            cv = ('sop', [list(t) for t in vals])
+            p = dict(sub=sub, cdims=cdims, cv=cv)
+        else:
+            vals = []
+            for d in cdims:
+                k = rng.random()
+                if k < 0.55:
+                    vals.append([rng.choice([1, 1, 0] if d == 2 else [1, 2, 0])])
+                else:
+                    vals.append(sorted(rng.sample(range(d), rng.randint(1, d))))
+            p = dict(sub=sub, cdims=cdims, cv=('pos', vals), bools=(rng.random() < 0.3 and all(d == 2 for d in cdims)),
+                     as_sets=rng.random() < 0.3)
+        return G(fam, p, tuple(cdims) + tuple(sub.shape))
     raise KeyError(fam)
 
 
